@@ -52,10 +52,12 @@ structure Item where
   res  : Res
   pre  : Option Res
   uerr : Bool
+  tres : Option Res := none
 
 def itemOf (j : Json) : R Item := do
   pure { p := ← payload (← field j "p"), res := ← resOf (← field j "res"),
-         pre := ← optOf resOf (fieldD j "pre" .null), uerr := ← boolF j "uerr" }
+         pre := ← optOf resOf (fieldD j "pre" .null), uerr := ← boolF j "uerr",
+         tres := ← optOf resOf (fieldD j "tres" .null) }
 
 structure Run where
   value   : List Payload
@@ -83,12 +85,15 @@ def runOf (items : List Item) (j : Json) : R Run := do
 /-- one call on the fake pipeline: (payloads, answers, failed) -/
 def askedOf (items : List Item) (j : Json) : R (List Payload × List Res × Bool) := do
   let ix ← listF asNat j "ix"
+  let to ← listOf asNat (fieldD j "to" .null)
   let its ← ix.mapM fun i => match items[i]? with
-    | some it => pure it
+    | some it => pure (i, it)
     | none => throw s!"asked index {i} out of range"
   let err ← boolF j "err"
   let rev ← boolF j "rev"
-  let rs : List Res := its.map (fun it => it.res)
+  -- a payload the pipeline ran out of time on was answered with its `tres`
+  let rs : List Res := its.map (fun (i, it) => if to.contains i then it.tres.getD it.res else it.res)
+  let its := its.map (·.2)
   pure (its.map (fun it => it.p), if err then [] else if rev then rs.reverse else rs, err)
 
 /-! ### replay of a queue log -/
@@ -295,6 +300,9 @@ def handlePipe (cfg : Cfg) (input impl : Json) : R Reply := do
     (if permuted then ["results-permuted"] else []) ++
     (if cached then ["cache-hit"] else []) ++
     (if asked.any (·.2.2) then ["batch-failed"] else []) ++
+    (if (fieldD input "deadline" (.bool false)) == .bool true then ["deadline-mode"] else []) ++
+    (if results.any (fun r => items.any (fun it => it.tres == some r)) then ["deadline-expired-results"] else []) ++
+    (if results.any (fun r => r.succEligible && r.cr.reason != 0) then ["eligible-with-reason"] else []) ++
     (if results.any (·.retryableFail) then ["retryable"] else []) ++
     (if results.any (fun r => r.cr.pes != 0 && !r.cr.retryable) then ["non-retryable"] else []) ++
     (if results.any (·.succEligible) then ["eligible"] else []) ++
@@ -365,6 +373,7 @@ def handlePlugin (cfg : Cfg) (input impl : Json) : R Reply := do
     (if items.any (fun it => it.script.any fun r => r.retryableFail && r.retryInterval ≤ 0) then ["plugin-default-interval"] else []) ++
     (if per.any (fun (it, cs) => (it.script.zip (cs.zip cs.tail)).any fun (r, c, c') => c'.t == c.t + effInterval cfg r.retryInterval + tick) then ["plugin-tick-boundary"] else []) ++
     (if !wantPerf.isEmpty then ["plugin-staged"] else []) ++
+    (if (fieldD o "peerReject" (.str "")) != .str "" then ["plugin:final-observation-rejected-by-peers"] else []) ++
     (if (fieldD input "decoy" (.bool false)) == .bool true then ["plugin-decoy"] else [])
   pure { agree := agree, specModel := sm, specImpl := si, diff := diff, fail := fail,
          nontrivial := items.any (fun it => it.script.length > 1), tags := tags }
@@ -452,12 +461,38 @@ def handleStress (cfg : Cfg) (input impl : Json) : R Reply := do
   pure { agree := agree, specModel := sm, specImpl := si, diff := diff, fail := fail,
          nontrivial := !before.isEmpty && !after.isEmpty, tags := tags }
 
+/-! ### fairness of the batch limit over many calls -/
+
+def handleFair (input impl : Json) : R Reply := do
+  let f ← field input "fair"
+  let d ← natF f "d"
+  let n ← natF f "n"
+  let k ← natF f "k"
+  let o ← field impl "fair"
+  let counts ← listF asNat o "counts"
+  let maxWait ← listF asNat o "maxWait"
+  let short ← natF o "short"
+  let foreign ← natF o "foreign"
+  -- model: all `d` records are due at every call, so every call hands out exactly `min n d` of them (which ones is
+  -- the map's iteration order — a parameter of the model)
+  let agree := short == 0 && foreign == 0 && counts.length == d && counts.sum == k * min n d
+  let si := fairOk d n k counts short foreign
+  let fail := if si then "" else
+    if short != 0 || foreign != 0 || counts.length != d || counts.sum != k * min n d then
+      "a dequeue with due records left handed out fewer than n, or something that was not due"
+    else s!"a work id that was due at every one of {k} dequeues was never handed out (starved behind the batch limit; {(counts.filter (· == 0)).length} of {d} records)"
+  pure { agree := agree, specModel := true, specImpl := si,
+         diff := if agree then "" else s!"handed out {counts.sum}, expected {k * min n d}; short={short} foreign={foreign}",
+         fail := fail, nontrivial := n < d,
+         tags := ["fair", s!"fair:n={n}"] ++ (if maxWait.any (· ≥ 10) then ["fair:waited>=10-calls"] else []) }
+
 def handle (input impl : Json) : R Reply := do
   match ← strF input "kind" with
   | "pipe" => handlePipe Cfg.repo input impl
   | "queue" => handleQueue Cfg.repo input impl
   | "plugin" => handlePlugin Cfg.repo input impl
   | "stress" => handleStress Cfg.repo input impl
+  | "fair" => handleFair input impl
   | k => throw s!"unknown C12 case kind {k}"
 
 end AutoVerif.C12
